@@ -38,3 +38,244 @@ compute_force_constants.spec_env['value_of'] = Builtin(lambda e, a: wrap(TReal, 
 
 CONTRACTS = [compute_force_constants]
 LEMMAS = []
+
+
+# ------------------------------------------------------------------ apply_rubber_band: which pairs get a bond, and which bond
+NKey, Attr, Pos = TKey('NKey'), TKey('Attr'), TKey('Pos')
+NodeRec = TTuple(NKey, Attr)
+Bond = TTuple(NKey, NKey, TReal, TReal, TReal, names=['a', 'b', 'ftype', 'length', 'k'])
+I_, J_ = z3.Int('I!arb'), z3.Int('J!arb')              # the arbitrary matrix index of the pointwise arrays
+
+
+def setup_arb(cx):
+    eng = cx.eng
+    from pyvc.values import IterV
+    from pyvc.builtins import _int, list_append, b_any, make_iter
+    nodes = cx.val('nodes', TSeq(NodeRec))                 # molecule.nodes.items(), in order
+    cx.spec_env['nodes'] = nodes
+    nty = TSeq(NodeRec)
+    ne = to_z3(nodes)
+    sel = cx.uf('sel', [Attr], TBool)                      # selector(attributes)
+    pos_of = cx.uf('pos_of', [Attr], TOpt(Pos))            # attributes.get('position')
+    any_nan = cx.uf('any_nan', [Pos], TBool)               # some coordinate of the position is NaN
+    all_nan = cx.uf('all_nan', [Pos], TBool)               # every coordinate is NaN
+    distf = cx.uf('distf', [Pos, Pos], TReal)              # Euclidean distance
+    connf = cx.uf('connf', [NKey, NKey], TBool)            # residues closer than res_min_dist along the residue graph
+    domf = cx.uf('domf', [NKey, NKey], TBool)              # domain_criterion(molecule, a, b)
+    cx.uf('exp_', [TReal], TReal)
+    cx.uf('pow_', [TReal, TReal], TReal)
+    cx.uf('round_', [TReal, TInt], TReal)
+    cx.uf('tri_k', [TInt, TInt], TInt)
+    cx.uf('kdf', [TReal], TReal)
+    p_ = z3.Const('p', Pos.sort())
+    cx.assume(z3.ForAll([p_], z3.Implies(all_nan(p_), any_nan(p_))))
+    ADDED = cx.heap('ADDED', Box(TSeq(Bond)))              # molecule.add_interaction('bonds', ...) calls, in order
+    WARNED = cx.heap('WARNED', Box(TSeq(TStr)))            # LOGGER.warning(..., type=...) calls: their types
+
+    def attr_view(ae):
+        o = Obj('attributes')
+        o.__dict__['attr_key'] = ae
+
+        def get(e, k, d=None):
+            if k == 'position' and d is None:
+                return SV(TOpt(Pos), pos_of(ae))
+            raise EngineError('attributes.get(%r) is not modelled' % (k,))
+        o.attrs['get'] = Builtin(get, 'attributes.get')
+        return o
+    nview = Obj('NodeView')
+    nview.attrs['items'] = Builtin(lambda e: IterV(nty.len(ne), lambda i: (SV(NKey, NodeRec.get(nty.at(ne, _int(i)), 0)),
+                                                                            attr_view(NodeRec.get(nty.at(ne, _int(i)), 1)))), 'nodes.items')
+
+    def add_interaction(e, type_=None, atoms=None, parameters=None, meta=None):
+        if isinstance(parameters, Box) and isinstance(parameters.ty, TSeq) and z3.is_int_value(z3.simplify(parameters.ty.len(parameters.e))):
+            pt = parameters.ty
+            parameters = [wrap(pt.t, z3.simplify(pt.at(parameters.e, i))) for i in range(z3.simplify(pt.len(parameters.e)).as_long())]
+        if type_ != 'bonds' or not isinstance(atoms, tuple) or len(atoms) != 2 or len(parameters) != 3:
+            raise EngineError('add_interaction call of another shape')
+        list_append(e, ADDED, (atoms[0], atoms[1]) + tuple(SV(TReal, _real_(e, x)) for x in parameters))
+    molecule = cx.obj('Molecule', nodes=nview, moltype=cx.val('moltype', TStr))
+    molecule.attrs['add_interaction'] = Builtin(add_interaction, 'molecule.add_interaction')
+    selector = Builtin(lambda e, a: wrap(TBool, sel(a.__dict__['attr_key'])), 'selector')
+    log = Obj('LOGGER')
+    log.attrs['warning'] = Builtin(lambda e, *a, type=None, **k: list_append(e, WARNED, type), 'LOGGER.warning')
+    cx.spec_env['LOGGER'] = log
+    state = {}
+
+    class Coords:
+        pass
+
+    def np_stack(e, lst):
+        c = Obj('coords')
+        c.__dict__['seq'] = to_z3(lst, TSeq(TOpt(Pos)))
+        state['coords'] = c.__dict__['seq']
+        return c
+
+    def row_pos(c, i):
+        return TOpt(Pos).get(TSeq(TOpt(Pos)).at(c.__dict__['seq'], _int(i)))
+
+    def np_isnan(e, c):
+        m = Obj('nanmask')
+        m.__dict__['coords'] = c
+        return m
+
+    def np_all(e, m, axis=None):
+        if 'coords' in m.__dict__ and axis == 1:
+            r = Obj('rowall')
+            r.__dict__['coords'] = m.__dict__['coords']
+            return r
+        raise EngineError('numpy.all of this shape is not modelled')
+
+    def np_any(e, m, axis=None):
+        c = m.__dict__.get('coords')
+        if c is None or axis is not None:
+            raise EngineError('numpy.any of this shape is not modelled')
+        f = all_nan if m.cls == 'rowall' else any_nan
+        n = TSeq(TOpt(Pos)).len(c.__dict__['seq'])
+        return b_any(e, IterV(n, lambda i: wrap(TBool, f(row_pos(c, i)))))
+
+    rows_c, cols_c = z3.Const('g_rows', TSeq(TInt).sort()), z3.Const('g_cols', TSeq(TInt).sort())
+    cx.spec_env['g_rows'], cx.spec_env['g_cols'] = SV(TSeq(TInt), rows_c), SV(TSeq(TInt), cols_c)
+
+    def triu(e, arr):
+        # assumed contract of numpy.triu_indices_from on an n x n matrix: all index pairs a <= b, each exactly once
+        n = TSeq(TOpt(Pos)).len(state['coords'])
+        rows, cols = rows_c, cols_c
+        st = TSeq(TInt)
+        tri_k = e.uf('tri_k', [TInt, TInt], TInt)
+        k, a, b = z3.Ints('tk ta tb')
+        e.assume(st.len(rows) == st.len(cols))
+        e.assume(z3.ForAll([k], z3.Implies(z3.And(0 <= k, k < st.len(rows)),
+                                           z3.And(0 <= st.at(rows, k), st.at(rows, k) <= st.at(cols, k), st.at(cols, k) < n,
+                                                  tri_k(st.at(rows, k), st.at(cols, k)) == k))))
+        e.assume(z3.ForAll([a, b], z3.Implies(z3.And(0 <= a, a <= b, b < n),
+                                              z3.And(0 <= tri_k(a, b), tri_k(a, b) < st.len(rows),
+                                                     st.at(rows, tri_k(a, b)) == a, st.at(cols, tri_k(a, b)) == b))))
+        return (SV(st, rows), SV(st, cols))
+    np_ = Obj('numpy')
+    for n_, f_ in (('stack', np_stack), ('isnan', np_isnan), ('all', np_all), ('any', np_any), ('triu_indices_from', triu)):
+        np_.attrs[n_] = Builtin(f_, 'numpy.' + n_)
+    cx.spec_env['np'] = np_
+
+    def selpos(i):
+        return TOpt(Pos).get(TSeq(TOpt(Pos)).at(state['coords'], i))
+
+    def sdm(e, c):
+        # self_distance_matrix: entry (I, J) is the distance between the I-th and the J-th selected atom
+        return PArr(distf(selpos(I_), selpos(J_)), I_ == J_, (I_, J_))
+    cx.spec_env['self_distance_matrix'] = Builtin(sdm, 'self_distance_matrix')
+
+    def cfc(e, dm, lower_bound, upper_bound, decay_factor, decay_power, base_constant, minimum_force):
+        # compute_force_constants by its contract (proved above, pointwise)
+        lb, ub, df, dp, bc, mf = [_real_(e, x) for x in (lower_bound, upper_bound, decay_factor, decay_power, base_constant, minimum_force)]
+        # kdf(d) names the decayed constant base * exp(-a (d - lower)^p) of that contract (opaque here: only its
+        # comparison with the minimum force and the base constant matters)
+        kd = e.uf('kdf', [TReal], TReal)(dm.e)
+        return dm.like(z3.If(z3.Or(dm.diag, dm.e > ub, kd < mf), z3.RealVal(0), z3.If(kd <= bc, kd, bc)))
+    cx.spec_env['compute_force_constants'] = Builtin(cfc, 'compute_force_constants')
+
+    def keysel(sel_list, i):
+        st = TSeq(TInt)
+        return NodeRec.get(nty.at(ne, st.at(sel_list, i)), 0)
+
+    def bcm(e, mol, res_min_dist, node_to_idx, selected_nodes=None):
+        sl = to_z3(selected_nodes, TSeq(TInt))
+        return PArr(connf(keysel(sl, I_), keysel(sl, J_)), I_ == J_, (I_, J_))
+
+    def bpm(e, mol, criterion, idx_to_node, selected_nodes=None):
+        sl = to_z3(selected_nodes, TSeq(TInt))
+        return PArr(domf(keysel(sl, I_), keysel(sl, J_)), I_ == J_, (I_, J_))
+    cx.spec_env['build_connectivity_matrix'] = Builtin(bcm, 'build_connectivity_matrix')
+    cx.spec_env['build_pair_matrix'] = Builtin(bpm, 'build_pair_matrix')
+    args = dict(molecule=molecule, selector=selector, domain_criterion=Obj('criterion'), res_min_dist=cx.val('res_min_dist', TInt),
+                bond_type=cx.val('bond_type', TInt))
+    for n_ in ('lower_bound', 'upper_bound', 'decay_factor', 'decay_power', 'base_constant', 'minimum_force'):
+        args[n_] = cx.val(n_, TReal)
+    return args
+
+
+def _real_(e, x):
+    v = e.num(x)
+    return z3.RealVal(v) if isinstance(v, (int, float)) else (z3.ToReal(v) if v.sort() == z3.IntSort() else v)
+
+
+SPEC_ARB = {
+    'key': "lambda i: nodes[i][0]",
+    'attr': "lambda i: nodes[i][1]",
+    'P': "lambda s, a: pos_of(attr(s[a]))",                                     # position of the a-th selected atom
+    'D': "lambda s, a, b: distf(P(s, a), P(s, b))",
+    'kd': "lambda d: kdf(d)",
+    # the documented force constant of a pair at distance d: 0 beyond the cut-off or below the minimum, capped at the base
+    'kdoc': "lambda d: 0 if (d > upper_bound or kd(d) < minimum_force) else (kd(d) if kd(d) <= base_constant else base_constant)",
+    # ... of the a-th and b-th selected atoms: 0 unless different atoms of one domain whose residues are far enough apart
+    'FC': "lambda s, a, b: kdoc(D(s, a, b)) if (a != b and not connf(key(s[a]), key(s[b])) and domf(key(s[a]), key(s[b]))) else 0",
+    'selected_exactly': "lambda s: forall(lambda p: implies(0 <= p and p < len(s), 0 <= s[p] and s[p] < len(nodes) and sel(attr(s[p])))) and "
+                        "forall(lambda p, q: implies(0 <= p and p < q and q < len(s), s[p] < s[q])) and "
+                        "forall(lambda i: implies(0 <= i and i < len(nodes) and sel(attr(i)), i in g_rank and 0 <= g_rank[i] and "
+                        "g_rank[i] < len(s) and s[g_rank[i]] == i))",
+}
+L1_INV = [
+    "len(selection) == len(coordinates)",
+    "forall(lambda p: implies(0 <= p and p < len(selection), 0 <= selection[p] and selection[p] < _i and sel(attr(selection[p])) and "
+    "   coordinates[p] == pos_of(attr(selection[p]))))",
+    "forall(lambda p, q: implies(0 <= p and p < q and q < len(selection), selection[p] < selection[q]))",
+    "forall(lambda i: implies(0 <= i and i < _i and sel(attr(i)), i in g_rank and 0 <= g_rank[i] and g_rank[i] < len(selection) and "
+    "   selection[g_rank[i]] == i))",
+    "forall(lambda i: implies(0 <= i and i < _i, i in idx_to_node and idx_to_node[i] == key(i)))",
+    "implies(len(missing) == 0, forall(lambda p: implies(0 <= p and p < len(coordinates), coordinates[p] is not None)))",
+    "implies(len(missing) > 0, 0 <= g_miss and g_miss < len(coordinates) and coordinates[g_miss] is None)",
+]
+BOND_OF = ("ADDED[{p}].a == key(selection[g_rows[{k}]]) and ADDED[{p}].b == key(selection[g_cols[{k}]]) and ADDED[{p}].ftype == bond_type and "
+           "ADDED[{p}].length == round_(D(selection, g_rows[{k}], g_cols[{k}]), 5) and ADDED[{p}].k == FC(selection, g_rows[{k}], g_cols[{k}])")
+L2_INV = [
+    "len(g_src) == len(ADDED)",
+    "forall(lambda p: implies(0 <= p and p < len(ADDED), 0 <= g_src[p] and g_src[p] < _i and g_src[p] in g_pos and g_pos[g_src[p]] == p))",
+    "forall(lambda p: implies(0 <= p and p < len(ADDED), " + BOND_OF.format(p='p', k='g_src[p]') + "))",
+    "forall(lambda p, q: implies(0 <= p and p < q and q < len(ADDED), g_src[p] < g_src[q]))",
+    "forall(lambda k: implies(0 <= k and k < _i, (k in g_pos) == (FC(selection, g_rows[k], g_cols[k]) > minimum_force)))",
+    "forall(lambda k: implies(k in g_pos, 0 <= k and k < _i and 0 <= g_pos[k] and g_pos[k] < len(ADDED) and g_src[g_pos[k]] == k))",
+]
+apply_rubber_band = FunctionContract(
+    F, 'apply_rubber_band', 'C15', setup=setup_arb, spec_defs=SPEC_ARB,
+    spec_env=dict(NKey=NKey, Attr=Attr, Pos=Pos),
+    locals=dict(selection=TSeq(TInt), coordinates=TSeq(TOpt(Pos)), missing=TSeq(NKey), node_to_idx=TMap(NKey, TInt),
+                idx_to_node=TMap(TInt, NKey), g_rank=TMap(TInt, TInt), g_src=TSeq(TInt), g_pos=TMap(TInt, TInt), g_miss=TInt),
+    requires=["forall(lambda i, j: implies(0 <= i and i < j and j < len(nodes), key(i) != key(j)))", "minimum_force >= 0", "base_constant >= 0",
+              "len(old(ADDED)) == 0 and len(old(WARNED)) == 0"],
+    ghost_at={'entry': "g_rank = {}\ng_miss = 0\ng_src = []\ng_pos = {}"},
+    ensures=[
+        # the atoms considered are exactly the selected ones, in the molecule's order
+        "selected_exactly(selection)",
+        # a selected atom with an undefined (NaN) coordinate: no network and a warning instead of a failure
+        "implies(exists(lambda p: 0 <= p and p < len(selection) and any_nan(P(selection, p))), len(ADDED) == 0 and len(WARNED) == 1 and "
+        "   WARNED[0] == 'unmapped-atom')",
+        "implies(not exists(lambda p: 0 <= p and p < len(selection) and any_nan(P(selection, p))), len(WARNED) == 0)",
+        # otherwise: the pair (a, b), a <= b, of selected atoms gets a bond exactly when its documented force constant
+        # (0 unless different atoms of one domain, residues far enough apart, within the cut-off) exceeds the minimum
+        "implies(len(selection) > 0 and len(WARNED) == 0, forall(lambda a, b: implies(0 <= a and a <= b and b < len(selection), "
+        "   (tri_k(a, b) in g_pos) == (FC(selection, a, b) > minimum_force))))",
+        # ... exactly one bond, between those two atoms, of the requested type, with the distance (5 decimals) as length and
+        # that force constant; and there are no other bonds
+        "implies(len(selection) > 0 and len(WARNED) == 0, forall(lambda a, b: implies(0 <= a and a <= b and b < len(selection) and "
+        "   tri_k(a, b) in g_pos, 0 <= g_pos[tri_k(a, b)] and g_pos[tri_k(a, b)] < len(ADDED) and "
+        + BOND_OF.format(p='g_pos[tri_k(a, b)]', k='tri_k(a, b)') + ")))",
+        "implies(len(selection) > 0 and len(WARNED) == 0, forall(lambda p: implies(0 <= p and p < len(ADDED), g_src[p] in g_pos and "
+        "   g_pos[g_src[p]] == p and 0 <= g_src[p] and g_src[p] < len(g_rows))))",
+        "implies(len(selection) == 0, len(ADDED) == 0 and len(WARNED) == 0)",
+    ],
+    raises={'ValueError': ["exists(lambda p: 0 <= p and p < len(selection) and P(selection, p) is None)", "len(ADDED) == 0"]},
+    modifies=['ADDED', 'WARNED'],
+    loops={
+        'L1': LoopSpec(inv=L1_INV, modifies=['selection', 'coordinates', 'missing', 'node_to_idx', 'idx_to_node', 'g_rank'],
+                       locals=dict(g_miss=TInt, g_n0=TInt),
+                       ghost_pre="g_n0 = len(selection)",
+                       ghost_end="if len(selection) > g_n0:\n    g_rank[_i] = g_n0\n    if coordinates[g_n0] is None:\n        g_miss = g_n0"),
+        'L2': LoopSpec(inv=L2_INV, modifies=['ADDED', 'g_src', 'g_pos'], locals=dict(g_a0=TInt),
+                       ghost_pre="g_a0 = len(ADDED)",
+                       ghost_end="if len(ADDED) > g_a0:\n    g_src.append(_i)\n    g_pos[_i] = g_a0"),
+    },
+    canary=[("can_be_linked = (~connected) & same_domain", "can_be_linked = connected & same_domain"),
+            ("if force_constant > minimum_force:", "if force_constant >= minimum_force:"),
+            ("from_key = idx_to_node[selection[from_idx]]", "from_key = idx_to_node[from_idx]"),
+            ("if np.any(np.isnan(coordinates)):", "if np.any(np.all(np.isnan(coordinates), axis=1)):")],
+)
+CONTRACTS.append(apply_rubber_band)
